@@ -127,7 +127,7 @@ EncodesTo(g, top, m, t) == LET h == Interpret(t, m) IN h.top = top /\ SameConten
 WellFormedGraph(g) ==
     /\ \A v \in Sources(g) : Cardinality({i \in DOMAIN g.tr : g.tr[i][1] = v /\ g.tr[i][2] = ConceptRole}) = 1
     /\ \A i, j \in DOMAIN g.tr : i # j => g.tr[i] # g.tr[j]
-    /\ \A i \in DOMAIN g.tr : g.tr[i][1] # NULL /\ g.tr[i][2] # TopRole
+    /\ \A i \in DOMAIN g.tr : g.tr[i][1] # NULL
 
 \* well-formed trees (property C02): every variable defined once, denoted triples pairwise distinct,
 \* roles in canonical inversion form, no inverted self-loop
